@@ -59,6 +59,11 @@ class UpdateDict(dict):
         self._updated()
         return v
 
+    def __ior__(self, other):
+        dict.update(self, other)
+        self._updated()
+        return self
+
 
 token_re = re.compile(r'([a-zA-Z][a-zA-Z_-]*)\s*(?:=(?:"([^"]*)"|([^ \t",;]*)))?')
 need_quote_re = re.compile(r"[^a-zA-Z0-9._-]")
